@@ -294,6 +294,24 @@ theorem c12_ts_taylor_computable (N nSel : ℕ) (Xs : List ℝ) (ll : ℝ) (hN :
     rw [ha, hb]
     exact ⟨0, c12_ts_taylor_flat ll, le_refl _, fun hne => absurd rfl hne⟩
 
+/-- the boundary case "the event selection kept no event" (`N′ = 0 < N`): `a = −1`, `b = −1/N` and the
+Taylor statistic is `N/2` — in particular it exists (the cache of per-event gradients is the *empty* list,
+not a missing one) -/
+theorem c12_ts_taylor_no_selected_events (N : ℕ) (ll : ℝ) (hN : 0 < N) :
+    tsTaylor 0 ll (nsGrad N 0 0 []) (nsGrad2 N 0 0 []) = some ((N : ℝ) / 2) ∧
+      ((LlhSt.fresh : LlhSt ℝ).evaluate 0 []).grad2 N 0 0 = .ok (-(1 / (N : ℝ))) := by
+  have hN0 : (N : ℝ) ≠ 0 := by exact_mod_cast (Nat.pos_iff_ne_zero.mp hN)
+  have ha : nsGrad N 0 (0 : ℝ) [] = -1 := by
+    simp [nsGrad, sumF, hN0]
+  have hb : nsGrad2 N 0 (0 : ℝ) [] = -(1 / (N : ℝ)) := by
+    simp [nsGrad2, sumF]
+  constructor
+  · rw [ha, hb, c12_ts_taylor_eq_documented _ _ _ (by simpa using hN0)]
+    congr 1
+    field_simp
+    ring
+  · simp [LlhSt.evaluate, LlhSt.grad2, hb]
+
 /-! ### the LLH-ratio object: `calculate_ns_grad2` uses what `evaluate` cached last -/
 
 /-- the documented `RuntimeError`: nothing evaluated since construction / the last new trial -/
@@ -890,6 +908,67 @@ theorem c12_poly_fit_defined (fit : ℕ → List ℝ) (pthr a1 b1 a b c : ℝ) (
     by_cases hsw : 0 < a ∨ polyDisc a b c pthr < 0
     · simp [hsw, ha1]
     · simp [hsw, ha]
+
+/-- **the inversion is free of the unit of the signal-strength axis**: measuring `ns` in units of `1/lam`
+(`lam > 0`) turns the fitted coefficients into `a/lam²`, `b/lam`, `c` (`a₁/lam`, `b₁` for the line); the
+branch taken is the same and the returned signal strength is `lam` times the old one.  (An absolute
+threshold on a coefficient, e.g. "`|a| < 1e-6` is a straight line", cannot satisfy this.) -/
+theorem c12_poly_scale_equivariant (fit fit' : ℕ → List ℝ) (pthr a1 b1 a b c lam : ℝ) (hl : 0 < lam)
+    (h1 : fit 1 = [a1, b1]) (h2 : fit 2 = [a, b, c])
+    (h1' : fit' 1 = [a1 / lam, b1]) (h2' : fit' 2 = [a / lam ^ 2, b / lam, c])
+    (deg : ℕ) (hdeg : deg = 1 ∨ deg = 2) :
+    polyFit fit' deg pthr = (polyFit fit deg pthr).map (fun r => (lam * r.1, r.2)) := by
+  have hl0 : lam ≠ 0 := ne_of_gt hl
+  have hl2 : 0 < lam ^ 2 := by positivity
+  obtain ⟨c1, c2⟩ := c12_poly_fit_cases fit pthr a1 b1 a b c h1 h2
+  obtain ⟨c1', c2'⟩ := c12_poly_fit_cases fit' pthr (a1 / lam) b1 (a / lam ^ 2) (b / lam) c h1' h2'
+  have ea1 : a1 / lam = 0 ↔ a1 = 0 := by simp [div_eq_zero_iff, hl0]
+  have ea : a / lam ^ 2 = 0 ↔ a = 0 := by simp [div_eq_zero_iff, hl0]
+  have epos : 0 < a / lam ^ 2 ↔ 0 < a := by
+    constructor
+    · intro h; by_contra hn; exact absurd h (not_lt.mpr (div_nonpos_of_nonpos_of_nonneg (not_lt.mp hn) (le_of_lt hl2)))
+    · intro h; exact div_pos h hl2
+  have eD : polyDisc (a / lam ^ 2) (b / lam) c pthr = polyDisc a b c pthr / lam ^ 2 := by
+    unfold polyDisc; field_simp
+  have eDneg : polyDisc (a / lam ^ 2) (b / lam) c pthr < 0 ↔ polyDisc a b c pthr < 0 := by
+    rw [eD]
+    constructor
+    · intro h; by_contra hn; exact absurd h (not_lt.mpr (div_nonneg (not_lt.mp hn) (le_of_lt hl2)))
+    · intro h; exact div_neg_of_neg_of_pos h hl2
+  have line : (if a1 / lam = 0 then (.error .notFinite : Except PolyErr (ℝ × ℕ)) else .ok (polyInvert1 (a1 / lam) b1 pthr, 1))
+      = (if a1 = 0 then (.error .notFinite : Except PolyErr (ℝ × ℕ)) else .ok (polyInvert1 a1 b1 pthr, 1)).map
+          (fun r => (lam * r.1, r.2)) := by
+    by_cases h : a1 = 0
+    · simp [h, Except.map]
+    · have h' : ¬ a1 / lam = 0 := fun hc => h (ea1.mp hc)
+      simp only [h, h', if_false, Except.map]
+      congr 2
+      unfold polyInvert1
+      field_simp
+  rcases hdeg with rfl | rfl
+  · rw [c1', c1]; exact line
+  · rw [c2', c2]
+    by_cases hsw : 0 < a ∨ polyDisc a b c pthr < 0
+    · have hsw' : 0 < a / lam ^ 2 ∨ polyDisc (a / lam ^ 2) (b / lam) c pthr < 0 := by
+        rcases hsw with h | h
+        · exact Or.inl (epos.mpr h)
+        · exact Or.inr (eDneg.mpr h)
+      simp only [hsw, hsw', if_true]; exact line
+    · have hsw' : ¬ (0 < a / lam ^ 2 ∨ polyDisc (a / lam ^ 2) (b / lam) c pthr < 0) := by
+        rintro (h | h)
+        · exact hsw (Or.inl (epos.mp h))
+        · exact hsw (Or.inr (eDneg.mp h))
+      simp only [hsw, hsw', if_false]
+      by_cases h : a = 0
+      · have h' : a / lam ^ 2 = 0 := ea.mpr h
+        simp [h, Except.map]
+      · have h' : ¬ a / lam ^ 2 = 0 := fun hc => h (ea.mp hc)
+        simp only [h, h', if_false, Except.map]
+        congr 2
+        unfold polyInvert2
+        simp only [TranscReal.sqrt_def]
+        rw [eD, Real.sqrt_div' _ (le_of_lt hl2), Real.sqrt_sq (le_of_lt hl)]
+        field_simp
 
 /-- the policy of the pinned revision violated the clause: a parabola opening downwards whose apex stays
 below `p_thr` (e.g. `−x²` for `p_thr = 1`, as fitted to monotone noisy curves in about one of eight
